@@ -577,7 +577,7 @@ func (e *Engine) storeLeaf(h Heap, p PtrVal, suffix, leaf, v string) {
 		return sto(arr, ixs[k], build(inner, k+1))
 	}
 	var nt string
-	if e.guard != "true" && !isBVLit(p.Base) {
+	if e.guard != "true" && !e.isFresh(p.Base) {
 		// store on a possibly not executed path: keep the old value unless the block is reached
 		oldv := sel(cur, p.Base)
 		for _, ix := range ixs {
@@ -591,7 +591,7 @@ func (e *Engine) storeLeaf(h Heap, p PtrVal, suffix, leaf, v string) {
 		nt = sto(cur, p.Base, build(sel(cur, p.Base), 0))
 	}
 	h[c.key] = e.sc.define("H_"+c.key, c.sort, nt)
-	if !isBVLit(p.Base) {
+	if !e.isFresh(p.Base) {
 		e.dirty[c.key] = true
 	}
 }
@@ -608,7 +608,7 @@ func (e *Engine) rawLoad(h Heap, c *component, base string, ixs []string) string
 
 func (e *Engine) rawStore(h Heap, c *component, base string, ixs []string, v string) {
 	cur := e.heapGet(h, c)
-	if e.guard != "true" && !isBVLit(base) {
+	if e.guard != "true" && !e.isFresh(base) {
 		oldv := sel(cur, base)
 		for _, ix := range ixs {
 			oldv = sel(oldv, ix)
@@ -623,7 +623,7 @@ func (e *Engine) rawStore(h Heap, c *component, base string, ixs []string, v str
 		return sto(arr, ixs[k], build(sel(arr, ixs[k]), k+1))
 	}
 	h[c.key] = e.sc.define("H_"+c.key, c.sort, sto(cur, base, build(sel(cur, base), 0)))
-	if !isBVLit(base) {
+	if !e.isFresh(base) {
 		e.dirty[c.key] = true
 	}
 }
@@ -700,7 +700,7 @@ func (e *Engine) store(h Heap, p PtrVal, t types.Type, v Val) {
 		cur := e.heapGet(h, c)
 		ixs := idxTerms(p.Path)
 		val := e.scalar(v).T
-		if e.guard != "true" && !isBVLit(p.Base) {
+		if e.guard != "true" && !e.isFresh(p.Base) {
 			oldv := sel(cur, p.Base)
 			for _, ix := range ixs {
 				oldv = sel(oldv, ix)
@@ -715,7 +715,7 @@ func (e *Engine) store(h Heap, p PtrVal, t types.Type, v Val) {
 			return sto(arr, ixs[k], build(sel(arr, ixs[k]), k+1))
 		}
 		h[c.key] = e.sc.define("H_"+c.key, c.sort, sto(cur, p.Base, build(sel(cur, p.Base), 0)))
-		if !isBVLit(p.Base) {
+		if !e.isFresh(p.Base) {
 			e.dirty[c.key] = true
 		}
 		return
@@ -763,7 +763,22 @@ func (e *Engine) elemPtr(s SliceVal, et types.Type, i string) PtrVal {
 	return PtrVal{Base: s.Arr, Root: types.NewSlice(et), Path: []pathElem{{field: -1, idx: ix}}}
 }
 
+// alloc returns the reference of a newly allocated object. Outside loops it is
+// a literal (one per allocation site execution in the acyclic unfolding). Inside a
+// loop body it is loopbase+k, where loopbase is a symbol that is larger than every
+// reference that exists when the iteration starts (so objects of earlier iterations
+// and loop-carried references never alias this iteration's allocations).
 func (e *Engine) alloc() string {
+	if e.allocBase != "" {
+		e.loopAllocN[e.allocBase]++
+		t := app("bvadd", e.allocBase, bvLit(uint64(e.loopAllocN[e.allocBase]), 32))
+		e.sc.fresh[t] = true
+		return t
+	}
 	e.nalloc++
-	return bvLit(uint64(0x80000000)+uint64(e.nalloc), 32)
+	t := bvLit(uint64(0x80000000)+uint64(e.nalloc), 32)
+	e.sc.fresh[t] = true
+	return t
 }
+
+func (e *Engine) isFresh(t string) bool { return e.sc.fresh[t] }
